@@ -323,13 +323,15 @@ def _r1(ctx):
     lo = ("cmp", ("Gt",), (("attr", r, "temp_min"), ("const", 0)))
     hi = ("cmp", ("Gt",), (("attr", r, "temp_max"), ("const", 0)))
     conds = {x for x in walk(elt) if isinstance(x, tuple) and x and x[0] == "cmp"}
-    # a comparison that still mentions a comprehension variable was not traced back to the reaction: the construction is not
-    # understood (not evidence of a wrong test)
-    def free_bvs(c):
-        bvs = {x for x in walk(c) if isinstance(x, tuple) and len(x) == 3 and x[0] == "bv"}
-        bound = {y for x in walk(c) if isinstance(x, tuple) and len(x) == 4 and x[0] == "comp" for g_ in x[3] for y in walk(g_[0]) if isinstance(y, tuple) and len(y) == 3 and y[0] == "bv"}
-        return bvs - bound
-    loose = [c for c in conds if c not in (lo, hi) and free_bvs(c)]
+    def untraced(c):
+        """c is the presence test itself on a comprehension variable (or an element the rule could not compose to this position):
+        the right test, whose reaction was not traced -- not evidence of a wrong test"""
+        for x in walk(c):
+            if isinstance(x, tuple) and len(x) == 3 and (x[0] == "bv" or (x[0] == "elem" and x != r)):
+                if simp(subst(c, {x: r})) in (lo, hi):
+                    return True
+        return False
+    loose = [c for c in conds if c not in (lo, hi) and untraced(c)]
     if loose:
         ctx.unrec("R1", "_assign_rates:presence-tests", (FILE, rets[0].line), "cannot trace the condition(s) that shape the statement back to the reaction of the same position: "
                   + ", ".join(sorted(show(c) for c in loose))[:160])
